@@ -522,11 +522,8 @@ func (s *Store[H]) flushLoop(ctx context.Context) {
 
 // flush writes given headers to datastore
 func (s *Store[H]) flush(ctx context.Context, headers ...H) error {
-	ln := len(headers)
-	if ln == 0 {
-		return nil
-	}
-
+	// NOTE: proceed even without headers (Stop with an empty pending batch), so the head and tail
+	// pointers, which may have moved since the last flush, are always persisted
 	batch, err := s.ds.Batch(ctx)
 	if err != nil {
 		return err
